@@ -191,7 +191,9 @@ func (x *ctx) validateAgainstReal(recs []execRec, n int) {
 					same = sortedLines(rr.Stdout) == sortedLines(rec.out)
 				}
 			}
-			if same {
+			if !same && strings.TrimSpace(rr.Stdout) == "timeout" {
+				ch <- res{true, "skipped"} // watchdog fired under load even after retries: neither validated nor divergent
+			} else if same {
 				ch <- res{true, ""}
 			} else {
 				ch <- res{false, fmt.Sprintf("argv=%v inproc=%q real=%q", rec.argv, head(rec.out, 200), head(rr.Stdout, 200))}
@@ -200,6 +202,9 @@ func (x *ctx) validateAgainstReal(recs []execRec, n int) {
 	}
 	for i := 0; i < cnt; i++ {
 		r := <-ch
+		if r.ok && r.msg == "skipped" {
+			continue
+		}
 		if r.ok {
 			done++
 		} else {
